@@ -762,7 +762,7 @@ func oracleRescan(res *hx.Result, tc tcase, out string) {
 				return // a legacy syntax error: the token is copied, nothing to compare
 			}
 			want = append(want, rescan(o)...)
-			if !strings.HasPrefix(o, "@(") && i+1 < len(segs) && segs[i+1].T == 0 {
+			if !strings.HasPrefix(o, "@(") && followedByBody(segs, i) {
 				glued = true
 			}
 		}
@@ -786,6 +786,15 @@ func oracleRescan(res *hx.Result, tc tcase, out string) {
 }
 
 // O4: text outside expressions is unchanged, and the migration is compositional over the scanner tokens
+// followedByBody: the next token after i, skipping the @("") tokens (which are removed), is body text
+func followedByBody(segs []seg, i int) bool {
+	j := i + 1
+	for j < len(segs) && segs[j].T == 2 && segs[j].S == `""` {
+		j++
+	}
+	return j < len(segs) && segs[j].T == 0
+}
+
 func oracleBody(res *hx.Result, tc tcase, out string) {
 	res.OracleChecks++
 	rest := out
@@ -805,7 +814,7 @@ func oracleBody(res *hx.Result, tc tcase, out string) {
 			o, _, _ := migrateReal(alone, tc.Options)
 			cands = []string{o}
 			// a bare identifier may keep its parentheses when body text follows (separateFrom)
-			if !strings.HasPrefix(o, "@(") && strings.HasPrefix(o, "@") && i+1 < len(segs) && segs[i+1].T == 0 {
+			if !strings.HasPrefix(o, "@(") && strings.HasPrefix(o, "@") && followedByBody(segs, i) {
 				cands = append(cands, "@("+o[1:]+")")
 			}
 		}
@@ -1042,6 +1051,9 @@ var corpus = []string{
 	`@("a\b")`, `@("a""b")`, `@(" "" ")`, `@("")`, `@("""")`, "@(\"a\n\"\"b\")", `@("\D\w+[\.*]")`, `@("a\")`, `@("a\" & "b")`,
 	// arity errors, unknown functions, keywords as function names
 	`@(POWER(1))`, `@(POWER(1,2,3))`, `@(SUM())`, `@(NULL(1))`, `@(TRUE())`, `@(FALSE(1))`, `@(DAYS())`, `@(FIXED())`, `@(FIXED(1.234))`, `@(WORD())`, `@(foo.bar(1))`,
+	// second hunt wave
+	`@contact.name@("")s`, `your @(flow.age)@("")@("")th birthday`, `@(FIXED())`, `@(FIELD())`, `@extra.votes.true`,
+	`@(NOW() + TIME(HOUR(NOW() + TIME(HOUR(NOW() + TIME(HOUR(NOW() + TIME(HOUR(NOW() + TIME(HOUR(NOW() + TIME(HOUR(NOW() + TIME(HOUR(NOW() + TIME(HOUR(NOW()), 0, 0)), 0, 0)), 0, 0)), 0, 0)), 0, 0)), 0, 0)), 0, 0)), 0, 0))`,
 	// pinned tests (samples)
 	`@(date.now + 5)`, `@(date.today + 5)`, `@(date.yesterday - 5)`, `@(date.tomorrow - 3 + 10)`, `@(date.now + TIME(2, 30, 0))`, `@(date.now - TIME(2, 30, 0))`,
 	`@(TODAY()+TIMEVALUE("10:30"))`, `@(contact.age + 100 - 5)`, `@((5 + contact.age) / 2)`, `@(WORD(flow.favorite_color, child.age - 22))`,
